@@ -1259,6 +1259,43 @@ func upperGuarded(fn *ssa.Function, blk *ssa.BasicBlock, at ssa.Instruction, bas
 			continue
 		}
 		edge := -1
+		// the distance form: B - G > c says G + c < B (B - G >= c: G + c - 1 < B)
+		if c, isC := constInt(bo.Y); isC {
+			if sub, isSub := bo.X.(*ssa.BinOp); isSub && sub.Op == token.SUB {
+				gb, gk := linTerm(sub.Y)
+				_, bc := linTerm(sub.X)
+				if sameTerm(gb, base) {
+					m := gk - bc + c // G + c < B on the GTR edge
+					switch bo.Op {
+					case token.GTR:
+						if m >= k {
+							edge = 0
+						}
+					case token.GEQ:
+						if m-1 >= k {
+							edge = 0
+						}
+					case token.LEQ: // false edge: B - G > c
+						if m >= k {
+							edge = 1
+						}
+					case token.LSS: // false edge: B - G >= c
+						if m-1 >= k {
+							edge = 1
+						}
+					}
+					if edge >= 0 {
+						if neg {
+							edge = 1 - edge
+						}
+						if edgeDominates(b, edge, blk) {
+							return true
+						}
+					}
+					continue
+				}
+			}
+		}
 		switch bo.Op {
 		case token.LSS: // G < B
 			if coversB(bo.X, bo.Y) {
